@@ -60,14 +60,17 @@ Definition wf_op (o : op) : bool :=
       | VDict dd => forallb (fun kv => wf_key (fst kv) && wf_val (snd kv)) dd
       | _ => true
       end
+  | OGetSteps k => wf_key k
+  | OEq v => wf_val v
+  | OFromDict _ => true
   end.
 
 (* operations covered by the proved refinement *)
 Definition core_op (o : op) : bool :=
   match o with
   | OSet _ _ | OSetAttr _ _ | OGet _ | OGetD _ _ | OContains _ | ODel _ | OPop _ _ | OUpdV _ _ _
-  | OClone | OItems _ => true
-  | OUpdNs _ _ _ | OAsDict | OInitDict _ => false
+  | OClone | OItems _ | OAsDict => true
+  | OUpdNs _ _ _ | OInitDict _ | OGetSteps _ | OEq _ | OFromDict _ => false
   end.
 
 (* 0 = inside the theorem; 1 = some addressed path met a dict-valued leaf (the known finding);
